@@ -1,7 +1,27 @@
+//! E-SIM entity family: C28 (writer instance API), C35 (handle uniqueness / creation never panics),
+//! C36 (deletion preconditions), C37 (QoS validation). Built on the `sim` library (virtual-time
+//! executor, in-memory network, fork-per-case campaign driver).
+
+mod c28;
+mod c35;
+mod c36;
+mod c37;
+mod common;
+mod driver;
+
 #[global_allocator]
 static A: vcore::alloc::Counting = vcore::alloc::Counting;
 
 fn main() {
-    eprintln!("engine sim_entity: not built yet");
-    std::process::exit(2);
+    let ctx = vcore::Ctx::from_args();
+    match ctx.id.as_str() {
+        "C28" => c28::main(&ctx),
+        "C35" => c35::main(&ctx),
+        "C36" => c36::main(&ctx),
+        "C37" => c37::main(&ctx),
+        other => {
+            eprintln!("sim_entity: unknown property id {other}");
+            std::process::exit(2);
+        }
+    }
 }
